@@ -206,8 +206,17 @@ ASMJIT_FAVOR_SIZE Error BaseEmitHelper::emit_args_assignment(const FuncFrame& fr
 
   // Shuffle all registers that are currently assigned accordingly to target assignment.
 
+  // Every variable moves at most twice (to a scratch register and then to its destination), so the number of passes is bounded.
+  // The bound guarantees termination even if a pass keeps moving a variable between scratch registers.
+  uint32_t pass_count = 0;
+  const uint32_t max_pass_count = var_count * 2u + 2u;
+
   uint32_t work_flags = kWorkNone;
   for (;;) {
+    if (++pass_count > max_pass_count) {
+      return make_error(Error::kInvalidState);
+    }
+
     for (uint32_t var_id = 0; var_id < var_count; var_id++) {
       Var& var = ctx._vars[var_id];
       if (var.is_done() || !var.cur.is_reg()) {
